@@ -431,6 +431,8 @@ def runOp (s : Sexp) : String :=
     | _, _ => "bad-op"
   -- deep nesting probe of the JSON-any decoder: a runtime (stack) matter, outside the model
   | .list [.atom "jdeep", .atom _] => "unsupported"
+  -- hundreds of thousands of elements: the model's decoder is quadratic in the element count; oracle only
+  | .list [.atom "declong", _, _, .atom _, .atom _] => "unsupported"
   -- `type P *P`: no finite TyDef
   | .list [.atom "buildself", .atom _] => "unsupported"
   | .list [.atom "zag", .atom n] =>
